@@ -23,6 +23,7 @@ VERIF = os.path.dirname(os.path.dirname(os.path.abspath(__file__)))
 REPO = "/repo"
 PKG = os.path.join(REPO, "perception_eval", "perception_eval")
 OUT = "/tmp/mutsweep"
+RECHECK_ROUND = 3   # bumped whenever the harness was strengthened and the survivors are to be looked at again
 SLACK = 25        # anchors carry line numbers of the pinned commit; the fix: commits moved things by a few lines
 
 sys.path.insert(0, os.path.join(VERIF, "tools"))
@@ -332,20 +333,26 @@ def cross(slot="x0"):
         print(m["id"], m["file"], m["line"], m["op"], "->", {q: c["rc"] for q, c in r["cross"].items()}, flush=True)
 
 
-def recheck(slot="rc0"):
-    """survivors re-run with the CURRENT harness (the sweep's isolated copies date from the start of the sweep)"""
+def recheck(slot="rc0", shard=0, nshards=1, redo=False):
+    """survivors re-run with the CURRENT harness (the sweep's isolated copies date from the start of the sweep);
+    `recheck --shard=K --of=N --slot=S` runs every N-th survivor in its own isolated copy so that several can run side by side"""
     import mutcheck
 
     index = json.load(open(os.path.join(OUT, "index.json")))
     mutcheck.sync(f"/tmp/verif_iso_{slot}")
-    for m in index:
+    for i_m, m in enumerate(index):
+        if i_m % nshards != shard:
+            continue
         p = os.path.join(OUT, m["id"] + ".json")
         if not os.path.exists(p):
             continue
         r = json.load(open(p))
         if r.get("rc") != 0 or "passed" not in str(r.get("tests")) or "failed" in str(r.get("tests")):
             continue
-        c = mutcheck.run(slot, m["patch"], [m["prop"]], jobs=8).get("checks", {}).get(m["prop"], {})
+        if r.get("recheck_round") == RECHECK_ROUND and not redo:
+            continue
+        c = mutcheck.run(slot, m["patch"], [m["prop"]], jobs=4).get("checks", {}).get(m["prop"], {})
+        r["recheck_round"] = RECHECK_ROUND
         r["recheck"] = {"rc": c.get("rc"), "what": (c.get("what") or "")[:200]}
         if c.get("rc") == 1:
             r["rc"], r["what"], r["nfi"], r["caught_on_recheck"] = 1, c.get("what"), c.get("no_failing_input"), True
@@ -361,7 +368,7 @@ if __name__ == "__main__":
     elif cmd == "cross":
         cross()
     elif cmd == "recheck":
-        recheck()
+        recheck(arg("--slot", "rc0"), int(arg("--shard", "0")), int(arg("--of", "1")), "--redo" in sys.argv)
     elif cmd == "run":
         run(int(arg("--slots", "3")), [x for x in arg("--props", "").split(",") if x])
     else:
